@@ -28,6 +28,19 @@ def c20_epilogue(steps, i):
     pid = np + 1
     blk = lambda dt, txs: {"ev": "block", "dt": dt, "proposer": 0, "absent": [], "evidence": [], "txs": txs}
     votes = [{"k": "gov_vote", "from": "v%d" % v, "id": pid, "opt": "yes"} for v in (1, 2, 3)]
+    if i % 6 == 5:
+        # the later handlers: v1.8.1 rewrites the delegation tracking of every clawback vesting account
+        # (the history before created, funded and delegated from such accounts), v1.8.2 only runs migrations
+        name = "v1.8.1" if (i // 6) % 2 == 0 else "v1.8.2"
+        return [
+            blk(5000, [{"k": "gov_upgrade", "from": "a1", "name": name, "delta": 2}] + votes),
+            blk(61000, [{"k": "eth_send", "from": "a3", "to": "a4", "amt": "1000", "extraGas": 0}, {"k": "delegate", "from": "a5", "val": 1, "amt": "1000"}]),
+            blk(5000, [{"k": "send", "from": "a2", "to": "a1", "amt": "1"}]),     # the upgrade block
+            {"ev": "restart"},
+            blk(5000, [{"k": "delegate", "from": "a4", "val": 2, "amt": "5000"}, {"k": "undelegate", "from": "a5", "val": 1, "amt": "500"},
+                       {"k": "send", "from": "a6", "to": "a2", "amt": "7"}, {"k": "deploy", "from": "a1", "slots": 2}]),
+            blk(5000, [{"k": "pc_delegate", "from": "a2", "val": 1, "amt": "1000"}, {"k": "withdraw", "from": "a5", "val": 1}]),
+        ]
     if i % 3 == 2:
         # "... or run upgrades": the v1.8.0 upgrade handler (activates the precompiles; the scenario's genesis
         # starts without them) runs at its plan height after an EVM message was executed; the follower restarts
@@ -100,7 +113,7 @@ def run_family(c, prop, mode, nscen, maxlen, followers, exhaustive=True):
         cfg = genesis_cfg(c.seed * 1000 + i)
         if mode == "C20":
             steps = steps + c20_epilogue(steps, i)
-            cfg["noPrecompiles"] = i % 3 == 2
+            cfg["noPrecompiles"] = i % 3 == 2 and i % 6 != 5
         full.append({"cfg": cfg, "steps": steps})
     outs = [None] * len(full)
     with concurrent.futures.ThreadPoolExecutor(max_workers=6) as ex:
